@@ -95,6 +95,8 @@
 (*  looked up was replaced before the write (error returned); delivery to a client that is online    *)
 (*  on ANOTHER node (SendToClient only knows the local registry: clean CodeClientOffline); what two  *)
 (*  CONCURRENT NotifyClientUpdate calls leave as last configuration (read-then-send, no version);    *)
+(*  the order between a push made on the node that holds the client (written at once) and one made    *)
+(*  on another node (it travels through the broker) - the model has ONE origin node;                   *)
 (*  the local config push blocking its caller on a stuck connection; the acknowledgement of a        *)
 (*  notification whose payload was malformed (sent, processed=true); a handler panic (propagates to  *)
 (*  readLoop's recover); notify ids are `notify-<ms>-<6 digits>`: unique only with high probability; *)
